@@ -41,17 +41,29 @@ ErrnoAt(j) ==
       c == IF m = 0 THEN New("12", "", "", "", "", "") ELSE New("", "0x5b", "", "", "", IF m = 1 THEN "0" ELSE "2")
       it == NItem("fault_errno", c, <<>>, IF m = 0 THEN 0 ELSE 1)
   IN  [it EXCEPT !.in.shim = @ @@ [errno |-> e]]
+\* requested lengths that alias a supported one under truncation (see GenMn!AliasLenText), and other big numerals
+AliasPowsCli == <<8, 16, 31, 32, 59, 61, 62, 63, 64, 70>>
+NAliasCli == 5 * Len(AliasPowsCli) * 3
+AliasCliAt(j) ==
+  LET L == <<12, 15, 18, 21, 24>>[1 + ((j - 1) % 5)]
+      w == AliasPowsCli[1 + (((j - 1) \div 5) % Len(AliasPowsCli))]
+      k == 1 + ((j - 1) \div (5 * Len(AliasPowsCli)))
+      t == Utf8ToStr(DecCodes(BnToDec(BnMulAddSmall(BnPow2(w), k, L))))
+  IN  NItem("alias_lengths", New(t, "", "", "", "", ""), <<>>, -1)
 O1 == 82
 O2 == O1 + NFaults
 O3 == O2 + NFresh
 O4 == O3 + 2 * NBack
-Count == O4 + NErrno
+O5 == O4 + NErrno
+Count == O5 + NAliasCli
 ItemAt(g) ==
   IF g <= O1 THEN LenAt(g)
   ELSE IF g <= O2 THEN FaultAt(g - O1)
   ELSE IF g <= O3 THEN FreshAt(g - O2)
   ELSE IF g <= O4 THEN BackAt(g, g - O3)
-  ELSE ErrnoAt(g - O4)
+  ELSE IF g <= O5 THEN ErrnoAt(g - O4)
+  ELSE AliasCliAt(g - O5)
+Histories == 0
 VARIABLE n
 INSTANCE GenBase
 =============================================================================
